@@ -302,11 +302,29 @@ func runC17Suspend(cs CaseSpec) *CaseResult {
 	nw.Mons = []Monitor{mon}
 	rng := cs.rng("c17s")
 	// phase 1: normal operation (nobody may suspend)
-	sp := ScheduleSpec{Steps: int(cs.I("steps", 120)), Shape: "uniform", SubmitProb: 0.5, TxKinds: 2, Leaves: int(cs.I("leaves", 0))}
+	sp := ScheduleSpec{Steps: int(cs.I("steps", 120)), Shape: "uniform", SubmitProb: 0.5, TxKinds: 2, Leaves: int(cs.I("leaves", 0)), Joins: int(cs.I("joins", 0))}
 	nw.RunSchedule(sp)
-	// phase 2: quorum lost: more than a third go silent for good
-	k := n/3 + 1
-	if n == 1 {
+	// let pending membership changes take effect before the quorum is lost
+	if sp.Leaves+sp.Joins > 0 {
+		saved := opts.SuspendLimit
+		nw.FairCycles(25)
+		_ = saved
+	}
+	// phase 2: quorum lost: more than a third of the *current* validators go silent for good
+	cur := 0
+	for _, x := range nw.babblers() {
+		if x.Core.Validators().ByID[x.ID] != nil {
+			cur++
+		}
+	}
+	for _, x := range nw.babblers() {
+		if x.Core.Validators().Len() != n {
+			res.count("suspend_runs_with_changed_validator_count", 1)
+			break
+		}
+	}
+	k := cur/3 + 1
+	if cur <= 1 {
 		k = 0
 	}
 	silent := 0
@@ -359,7 +377,22 @@ func init() {
 				if i%2 == 0 {
 					cs = append(cs, CaseSpec{Kind: "states", P: map[string]int64{"n": int64(3 + i%4), "steps": int64(100 + (i*13)%100), "reqs": 60}, S: map[string]string{"state": states[(i/2)%len(states)]}})
 				} else {
-					cs = append(cs, CaseSpec{Kind: "suspend", P: map[string]int64{"n": int64(2 + i%6), "limit": int64(1 + (i*3)%9), "steps": int64(80 + (i*7)%80), "steps2": 500, "leaves": int64((i / 2) % 2)}})
+					c := CaseSpec{Kind: "suspend", P: map[string]int64{"n": int64(2 + i%6), "limit": int64(1 + (i*3)%9), "steps": int64(80 + (i*7)%80), "steps2": 500}}
+					switch (i / 2) % 3 {
+					case 1:
+						c.P["leaves"] = 1
+						c.P["n"] = int64(4 + i%2)
+						c.P["steps"] = 300
+						c.P["limit"] = int64(30 + (i*3)%15)
+						c.P["steps2"] = 1200
+					case 2:
+						c.P["joins"] = 1
+						c.P["n"] = int64(3 + i%3)
+						c.P["steps"] = 300
+						c.P["limit"] = int64(30 + (i*3)%15)
+						c.P["steps2"] = 1200
+					}
+					cs = append(cs, c)
 				}
 			}
 			return cs
